@@ -288,6 +288,17 @@ def rule_cost(ctx, rep):
             except PyRaise as e:
                 got = f"RAISES {e.exc}"
             rep.check(got == want, rule, f"{_opkey(op)}.cost[v{v}]", _where(ctx, cls), got, want)
+    # assembler directives and labels are not opcodes: they cost nothing
+    b = None
+    from ..absobj import Builder
+    b = Builder(ctx)
+    for line in ("#pragma version 6", "somelabel:"):
+        o = b.ins(line)
+        for v in (1, 6, 8):
+            tables.with_version(ctx.world, o, v)
+            got = ctx.world.getattr(o, "cost")
+            rep.check(got == 0, rule, f"'{line.split()[0]}' is not an opcode: cost[v{v}]", _where(ctx, o.cls), got, 0,
+                      why="a label / pragma line is counted in the block cost")
     # BasicBlock.cost is the sum over its instructions
     w = ctx.world
     bbcls = w.cls("tealer.teal.basic_blocks", "BasicBlock")
